@@ -440,11 +440,20 @@ func (H) Execute(scAny any, cfg simrt.Config, st *core.Stats) (*simrt.Outcome, *
 					case "PubSync":
 						ps.PubSync(cr.evs[0])
 					case "PubSlice":
-						ps.PubSlice(cr.evs)
+						ps.PubSlice(cr.evs[:len(cr.evs):len(cr.evs)])
 					case "PubSliceWait":
-						ps.PubSliceWait(cr.evs)
+						ps.PubSliceWait(cr.evs[:len(cr.evs):len(cr.evs)])
 					case "PubSliceSync":
-						ps.PubSliceSync(cr.evs)
+						ps.PubSliceSync(cr.evs[:len(cr.evs):len(cr.evs)])
+					}
+					if strings.Contains(pc.Variant, "Slice") {
+						// the caller owns its slice again once the call has returned:
+						// a batching producer reuses it at once
+						mine := cr.evs
+						cr.evs = append([]int(nil), mine...)
+						for k := range mine {
+							mine[k] = 999000 + k
+						}
 					}
 					cr.liveKids = simrt.LiveChildrenSince(cr.inv)
 					cr.ret = simrt.Stamp()
